@@ -302,3 +302,22 @@ Proof. vm_compute. reflexivity. Qed.
 Example append_decimal_ex_hyp :
   f_finite (f_of_bits 13814953986545581818) = true /\ ad_scaled (f_of_bits 13814953986545581818) (ad_dec 6) = -96000.
 Proof. vm_compute. split; reflexivity. Qed.
+
+(* ---- AppendFloat: the clauses that do not depend on the digit layout ------------------------------------ *)
+
+Definition af_prec (prec : Z) : Z := if (prec <? 0) || (17 <? prec) then 17 else prec.
+
+Lemma append_float_trivial_proof : forall b spare f prec,
+  (f_finite f = false -> append_float b spare f prec = Ok b) /\
+  (forall s, f = S754_zero s -> append_float b spare f prec = Ok (b ++ [48])).
+Proof.
+  intros b spare f prec. split.
+  - unfold f_finite, append_float. intros H. destruct (f_is_nan f || f_is_inf f); [reflexivity|discriminate].
+  - intros s ->. unfold append_float. cbn [f_is_nan f_is_inf orb].
+    fold (af_prec prec).
+    assert (Hp : 0 <= af_prec prec <= 17) by (unfold af_prec; destruct ((prec <? 0) || (17 <? prec)) eqn:E; lia).
+    remember (af_prec prec) as k eqn:Ek. clear Ek.
+    assert (Hin : In k (zrange 0 17)) by (apply zrange_in; exact Hp).
+    destruct s; vm_compute in Hin;
+      repeat (destruct Hin as [<-|Hin]; [vm_compute; reflexivity|]); destruct Hin.
+Qed.
